@@ -350,6 +350,41 @@ inductive Clause where
   | setRetention (t : Ref) (v : Nat) (expect : Option Nat)
   deriving Repr
 
+/-- the `MutationClause` variant (`kml/clauses.rs` `apply`) a model clause stands for -/
+def Clause.kindName : Clause → String
+  | .createConcept .. => "CreateConcept"
+  | .upsert .. => "UpsertConcept"
+  | .ensure .. => "EnsureProposition"
+  | .createRec k .. =>
+      match k with
+      | .assertion => "CreateAssertion" | .evidence => "CreateEvidence" | .activity => "CreateActivity"
+      | _ => "(no record-create form)"
+  | .update .. => "Update"
+  | .setState _ to _ => if to = .tombstoned then "Tombstone" else "Archive"
+  | .retract .. => "RetractAssertion"
+  | .purge .. => "Purge"
+  | .supersede .. => "SupersedeAssertion"
+  | .correct .. => "CorrectEvidence"
+  | .transition .. => "TransitionActivity"
+  | .setRetention .. => "SetRetention"
+
+/-- one model clause of every kind -/
+def sampleClauses : List Clause :=
+  [.createConcept 1 1 0 1 false, .upsert 1 none 1 none none, .ensure none (.h 1) 5 (.h 2) none false,
+   .createRec .assertion 1 1 [] false, .createRec .evidence 1 1 [] false, .createRec .activity 1 1 [] false,
+   .update (.h 1) [] none false, .setState (.h 1) .archived none, .setState (.h 1) .tombstoned none,
+   .retract (.h 1) none, .purge (.h 1) false, .supersede (.h 1) (.h 2) none, .correct (.h 1) (.h 2),
+   .transition (.h 1) 5 none, .setRetention (.h 1) 1 none]
+
+/-- the clause kinds the model interprets -/
+def modelledKinds : List String := sampleClauses.map Clause.kindName
+
+/-- the clause kinds `clauses::apply` dispatches on that the model does **not** interpret (named, so
+that a kind added to the engine cannot go unnoticed: `Props/C17.lean` `clause_kinds_covered` proves
+every generated kind is in one of the two lists). `MergeConcept` re-points later ENSURE endpoints
+through `merged_into`; it takes the same load / mark_changed / commit path. -/
+def notModelledKinds : List String := ["MergeConcept"]
+
 /-- `clauses::plan_pass` -/
 def planPass : Clause → Nat
   | .createConcept .. => 0
